@@ -55,7 +55,7 @@ def _write(path, prop, cfg, mode, seed, disabled, tape, header):
 def minimise(binary, env, prop, cfg, mode, run, path, budget_s=90, log=print):
     seed = run['seed']
     t0 = time.time()
-    tmpd = tempfile.mkdtemp(prefix='dsim-shrink-', dir=os.path.join(os.path.dirname(os.path.dirname(os.path.abspath(__file__))), 'build'))
+    tmpd = tempfile.mkdtemp(prefix='dsim-shrink-', dir=os.environ.get('VERIF_BUILD', os.path.join(os.path.dirname(os.path.dirname(os.path.abspath(__file__))), 'build')))
     tapef = os.path.join(tmpd, 'tape.txt')
     cand = os.path.join(tmpd, 'cand.replay')
     # gate 1: the seed fails the same way in a fresh process; record its tape
